@@ -161,11 +161,11 @@ def scenarios(ctx):
     rnd = ctx.rng("c16")
     scs = []
     pairs = [(iv * TPS, to * TPS) for iv in range(1, 7) for to in range(1, 6) if iv > to]
-    npat = 3 if ctx.thorough() else 2
+    npat = 3
     for iv, to in pairs:
         L = [1, to - 1, to, to + 1, INF]
         for lats in itertools.product(L, repeat=npat):
-            scheds = ["", "1", "01", "10", "11"] if (ctx.thorough() or (iv, to) in ((3 * TPS, 2 * TPS), (2 * TPS, TPS))) else ["", "1"]
+            scheds = ["", "1", "01", "10", "11", "101", "011"] if (ctx.thorough() or (iv, to) in ((3 * TPS, 2 * TPS), (2 * TPS, TPS))) else ["", "1", "01"]
             for sched in scheds:
                 scs.append(ka_scenario(iv, to, list(lats), sched=sched))
         # data traffic at the critical instants, both tie orders
